@@ -1,6 +1,6 @@
 (* C15 — equality, hashing and content comparison are coherent. *)
 Require Import Enr.Bytes Enr.Consts Enr.Rlp Enr.SortedMap Enr.Keccak Enr.Record Enr.Update Enr.Spec.
-Require Import EnrProofs.Thm_Misc EnrProofs.Thm_More EnrProofs.WellFormedLemmas.
+Require Import EnrProofs.Thm_Misc EnrProofs.Thm_More EnrProofs.WellFormedLemmas EnrProofs.Thm_Valid.
 Open Scope N_scope.
 
 Theorem rec_eqb_iff : forall a b, rec_eqb a b = true <-> seq a = seq b /\ nid a = nid b /\ sig a = sig b.
@@ -51,3 +51,17 @@ Proof.
   rewrite D in H. inversion H; subst. split; [apply Thm_Misc.rec_eqb_refl | reflexivity].
 Qed.
 Print Assumptions eq_redecode.
+
+(* a record differs from any record with another key -- or the two keys' uncompressed forms collide under keccak256 *)
+Theorem eq_other_key_is_collision : forall (c : crypto) kt a b pa pb,
+  Valid c kt a -> Valid c kt b -> public_key c kt a = Ok pa -> public_key c kt b = Ok pb ->
+  pk_unc pa <> pk_unc pb -> rec_eqb a b = true ->
+  keccak256 (pk_unc pa) = keccak256 (pk_unc pb).
+Proof.
+  intros c kt a b pa pb Va Vb Pa Pb Hne E. apply Thm_Misc.rec_eqb_iff in E. destruct E as (_ & En & _).
+  destruct (Thm_Valid.valid_observables c kt a Va) as (qa & Qa & _ & _ & Na & _).
+  destruct (Thm_Valid.valid_observables c kt b Vb) as (qb & Qb & _ & _ & Nb & _).
+  rewrite Pa in Qa. rewrite Pb in Qb. inversion Qa; inversion Qb; subst.
+  unfold node_id_of in Na, Nb. rewrite <- Na, <- Nb. exact En.
+Qed.
+Print Assumptions eq_other_key_is_collision.
